@@ -94,7 +94,7 @@ def generate(seed, tier):
         elif rng.random() < 0.5:
             sopts["replace_parens"] = True
             paren = True
-    allow = ["ascii", "xml", "len"]
+    allow = ["ascii", "xml", "len", "hash"]
     if all(e != "latin-1" for e in encs):
         allow.append("wide")
     allow.append("latin1")
